@@ -1147,14 +1147,28 @@ def builtin(I, o, args, kwargs, callnode):
         return VInt(acc)
     if o is getattr:
         nm = concretise(args[1])
+        optional = nm in (getattr(I.contract, 'ghost', {}) or {}).get('optional_attrs', [])
         if len(args) == 3:
             try:
-                return get_attr(I, args[0], nm)
+                r_ = get_attr(I, args[0], nm)
             except Raised as r:
                 if r.exc.cls is AttributeError:
                     return args[2]
                 raise
-        return get_attr(I, args[0], nm)
+            if optional and isinstance(r_, VOpt):
+                # an attribute that may be absent is modelled as an optional field
+                return args[2] if I.decide(r_.none, 'attr-absent') else r_.val
+            return r_
+        r_ = get_attr(I, args[0], nm)
+        if optional and isinstance(r_, VOpt):
+            if I.decide(r_.none, 'attr-absent'):
+                raise Raised(VExc(AttributeError, [VStr(nm)]))
+            return r_.val
+        return r_
+    if o is super:
+        # super() / super(Cls, obj): the dict layer of a Scope-like record
+        target = args[1] if len(args) == 2 else I.env.get('self')
+        return VSuper(target)
     if o is hasattr:
         nm = concretise(args[1])
         try:
@@ -1310,6 +1324,14 @@ def exact_type_term(I, v, cls):
     return z3.And(Val.is_obj(t), f_typeid(Val.oid(t)) == conc_oid(cls))
 
 
+class VSuper(V):
+    """super() proxy of a dict subclass instance: operations reach the plain dict layer"""
+    kind = 'super'
+
+    def __init__(self, obj):
+        self.obj = obj
+
+
 class VTypeOf(V):
     """type(x) for x: Any -- only compared by identity against concrete types"""
     kind = 'typeof'
@@ -1384,6 +1406,12 @@ def _isinst(I, v, c):
 # ---------------------------------------------------------------------------
 def method(I, recv, name, args, kwargs, callnode=None, unbound=None):
     from .interp import Raised
+    if isinstance(recv, VSuper):
+        used('dict methods through super() (the plain dict layer of a dict subclass)')
+        own = recv.obj.fields['own']
+        if name == '__iter__':
+            raise Unsupported('iteration of the dict layer')
+        return dict_method(I, own, name, args, kwargs)
     if getattr(recv, 'kind', '') == 'ktext':
         if name == 'append':
             recv.append_value(args[0])
